@@ -1006,7 +1006,7 @@ void SLUFactor<R>::assign(const SLUFactor<R>& old)
    memcpy(this->l.start, old.l.start, (unsigned int)this->l.startSize * sizeof(*this->l.start));
    memcpy(this->l.row,   old.l.row, (unsigned int)this->l.startSize * sizeof(*this->l.row));
 
-   if(!this->l.rval.empty())
+   if(old.l.ridx != nullptr)
    {
       assert(old.l.ridx  != nullptr);
       assert(old.l.rbeg  != nullptr);
@@ -1034,6 +1034,7 @@ void SLUFactor<R>::assign(const SLUFactor<R>& old)
       assert(old.l.rorig == nullptr);
       assert(old.l.rperm == nullptr);
 
+      this->l.rval.clear();
       this->l.ridx  = nullptr;
       this->l.rbeg  = nullptr;
       this->l.rorig = nullptr;
